@@ -4,8 +4,10 @@ worktree /tmp/mut/<ID> (compiles, the 19 pinned tests pass, demo exits 0 without
 change) and, if confirmed, keep it as /verif/seeded/<ID>-<letter>/ {patch.diff, demo.cpp, NOTES.md, meta.json}."""
 import json, os, shutil, subprocess, sys, time
 pid, letter = sys.argv[1], sys.argv[2]
-wt = "/tmp/mut/%s" % pid
-out = "/tmp/mut/out_%s" % pid
+BASE = os.environ.get("MUT_BASE", "/tmp/mut")
+NAME = os.environ.get("MUT_NAME", letter)   # name under which the change is kept
+wt = "%s/%s" % (BASE, pid)
+out = "%s/out_%s" % (BASE, pid)
 patch = os.path.join(out, letter + ".diff")
 demo = os.path.join(out, "demo_%s.cpp" % letter)
 def sh(cmd, cwd=None, timeout=1800):
@@ -14,7 +16,7 @@ def sh(cmd, cwd=None, timeout=1800):
 def demo_run(tag):
     src = open(demo).read()
     mpi = "mpi.h" in src or "mc-mpi" in src
-    exe = "/tmp/mut/demo_%s_%s_%s" % (pid, letter, tag)
+    exe = "%s/demo_%s_%s_%s" % (BASE, pid, letter, tag)
     cc = "mpicxx" if mpi else "g++"
     rc, o = sh("%s -std=c++11 -O1 -I%s/include %s -o %s" % (cc, wt, demo, exe))
     if rc != 0:
@@ -30,7 +32,7 @@ def demo_run(tag):
     os.remove(exe)
     return codes, o[-600:]
 sh("git checkout -- . && rm -rf _build", cwd=wt)
-meta = {"property": pid, "change": letter, "confirmed_at": time.strftime("%Y-%m-%dT%H:%M:%S")}
+meta = {"property": pid, "change": NAME, "round": 2 if BASE.endswith("mut2") else 1, "confirmed_at": time.strftime("%Y-%m-%dT%H:%M:%S")}
 meta["demo_without_change"] = demo_run("clean")[0]
 rc, o = sh("git apply %s" % patch, cwd=wt)
 if rc != 0:
@@ -47,7 +49,7 @@ meta["ran"] = ["git apply patch.diff (scratch worktree)", "meson setup/compile/t
                "demo without change -> %s, with change -> %s" % (meta["demo_without_change"], meta["demo_with_change"])]
 print(json.dumps(meta, indent=1))
 if ok:
-    d = "/verif/seeded/%s-%s" % (pid, letter)
+    d = "/verif/seeded/%s-%s" % (pid, NAME)
     os.makedirs(d, exist_ok=True)
     shutil.copy(patch, os.path.join(d, "patch.diff"))
     shutil.copy(demo, os.path.join(d, "demo.cpp"))
